@@ -839,12 +839,7 @@ class Pregex():
 
         left, right = (pattern, pre) if on_right else (pre, pattern)
 
-        # Keep a numeric backreference from absorbing any digits that follow it.
-        if right[:1] in tuple("0123456789") and \
-            _re.search(r"(?<!\\)(?:\\\\)*\\\d+$", left) is not None:
-            left = f"(?:{left})"
-
-        return __class__(left + right, escape=False)
+        return __class__(__class__.__join(left, right), escape=False)
 
 
     def either(self, pre: _Union['Pregex', str], on_right: bool = True) -> 'Pregex':
@@ -884,8 +879,8 @@ class Pregex():
             ``Pregex`` instance nor a string.
         '''
         pre = __class__._to_pregex(pre)._concat_conditional_group()
-        pattern = f"{pre}{self._concat_conditional_group()}{pre}"
-        return __class__(pattern, escape=False)
+        pattern = __class__.__join(pre, self._concat_conditional_group())
+        return __class__(__class__.__join(pattern, pre), escape=False)
         
 
     '''
@@ -1393,6 +1388,22 @@ class Pregex():
             source = self.__extract_text(source)
         return _re.finditer(self.__pattern, source, flags=self.__flags) \
             if self.__compiled is None else self.__compiled.finditer(source)
+
+
+    @staticmethod
+    def __join(left: str, right: str) -> str:
+        '''
+        Concatenates the two provided RegEx patterns, while keeping a numeric \
+        backreference at the end of the first one from absorbing any digits \
+        that the second one starts with.
+
+        :param str left: The pattern on the left side of the concatenation.
+        :param str right: The pattern on the right side of the concatenation.
+        '''
+        if right[:1] in tuple("0123456789") and \
+            _re.search(r"(?<!\\)(?:\\\\)*\\\d+$", left) is not None:
+            left = f"(?:{left})"
+        return left + right
 
 
     @staticmethod
